@@ -485,6 +485,9 @@ func checkC01(p *Prog, rp *Report) {
 
 	seq := rp.Rule("C01-SEQ", "Compare composes epoch, upstream, revision lexicographically", 1)
 	checkCompareSeq(p, seq, impl)
+	// sorting a list of versions orders it as dpkg does: the sort adapter is part of the ordering
+	srt := rp.Rule("C01-SORT", "sort adapter: Len = len, Swap exchanges i and j, Less(i,j) iff a[i] sorts before a[j] in dpkg's order", 3)
+	checkSortAdapter(p, srt)
 }
 
 // dpkgWeight is Appendix A1 of DESIGN.md.
